@@ -35,6 +35,7 @@ type Entry struct {
 	Arg   int     `json:"arg,omitempty"`
 	Raw   string  `json:"raw,omitempty"`
 	Shape string  `json:"shape,omitempty"` // which unexpected shape File contains (for statistics)
+	Perm  string  `json:"perm,omitempty"`  // F13: "ro" = the file cannot be written (mode 0444), "noread" = it cannot even be read (mode 0000); the tool then runs as an unprivileged user
 }
 
 func (e *Entry) Content() string {
@@ -64,6 +65,26 @@ type Event struct {
 	Op     string `json:"op"`
 	Target string `json:"target,omitempty"` // file name (run-f, fault, heal) or glob (run-p), relative to the directory
 	Entry  *Entry `json:"entry,omitempty"`  // fault: the new entry
+	Form   int    `json:"form,omitempty"`   // run-*: 0 "d/x", 1 "./d/x", 2 absolute path, 3 "d/" with a trailing slash (run-d only)
+}
+
+// arg renders the path argument of an invocation.
+func (w *World) arg(ev *Event) string {
+	p := "d"
+	if ev.Op != EvRunD {
+		p = filepath.Join("d", ev.Target)
+	}
+	switch ev.Form {
+	case 1:
+		return "./" + p
+	case 2:
+		return filepath.Join(w.root, p)
+	case 3:
+		if ev.Op == EvRunD {
+			return p + "/"
+		}
+	}
+	return p
 }
 
 type Plan struct {
@@ -72,6 +93,25 @@ type Plan struct {
 	Events  []Event `json:"events"`
 	Case    string  `json:"case,omitempty"` // label of a systematic case
 }
+
+// Unpriv reports whether the history contains permission faults: the tool is
+// then run as an unprivileged user (root ignores file modes).
+func (p *Plan) Unpriv() bool {
+	for i := range p.Entries {
+		if p.Entries[i].Perm != "" {
+			return true
+		}
+	}
+	for i := range p.Events {
+		if p.Events[i].Entry != nil && p.Events[i].Entry.Perm != "" {
+			return true
+		}
+	}
+	return false
+}
+
+// CanDropPrivileges: permission faults need the harness to be root.
+func CanDropPrivileges() bool { return os.Geteuid() == 0 }
 
 // World is one scratch directory plus the bookkeeping of the oracles.
 type World struct {
@@ -83,6 +123,8 @@ type World struct {
 	healthy map[string]string
 	// hash of the content after the last invocation that processed the file
 	processed   map[string][32]byte
+	perm        map[string]string // name -> "ro" / "noread" for entries with a permission fault
+	unpriv      bool
 	Probes      detsim.Counter
 	Faults      detsim.Counter
 	Invocations int
@@ -118,8 +160,14 @@ type runResult struct {
 
 var goroutineRe = regexp.MustCompile(`goroutine \d+ \[running\]`)
 
-func runCLI(cli, cwd string, args ...string) runResult {
+func runCLI(cli, cwd string, args ...string) runResult { return runCLIAs(false, cli, cwd, args...) }
+
+// runCLIAs optionally runs the tool as user nobody (65534): file modes then mean something.
+func runCLIAs(unpriv bool, cli, cwd string, args ...string) runResult {
 	cmd := exec.Command(cli, args...)
+	if unpriv {
+		cmd.SysProcAttr = &syscall.SysProcAttr{Credential: &syscall.Credential{Uid: 65534, Gid: 65534}}
+	}
 	cmd.Dir = cwd
 	var eb bytes.Buffer
 	cmd.Stderr = &eb
@@ -180,12 +228,23 @@ func parses(content []byte) bool {
 
 func NewWorld(cli, root string, solo *SoloCache, p *Plan) (*World, error) {
 	w := &World{cli: cli, root: root, solo: solo, plan: p, healthy: map[string]string{}, processed: map[string][32]byte{},
-		Probes: detsim.Counter{}, Faults: detsim.Counter{}}
+		perm: map[string]string{}, unpriv: p.Unpriv(), Probes: detsim.Counter{}, Faults: detsim.Counter{}}
 	os.RemoveAll(root)
 	if err := os.MkdirAll(filepath.Join(root, "d"), 0o755); err != nil {
 		return nil, err
 	}
 	os.MkdirAll(filepath.Join(root, "other"), 0o755)
+	if w.unpriv {
+		if !CanDropPrivileges() {
+			return nil, fmt.Errorf("plan with permission faults but the harness is not root")
+		}
+		// the unprivileged tool must be able to reach the directory: open up every ancestor that is ours
+		for d := root; d != "/" && d != "." && strings.Contains(d, "verif-"); d = filepath.Dir(d) {
+			os.Chmod(d, 0o755)
+		}
+		os.Chmod(filepath.Join(root, "d"), 0o777)
+		os.Chmod(filepath.Join(root, "other"), 0o777)
+	}
 	// out-of-scope files: a sibling directory and (if the plan has a sub-directory) files inside it
 	os.WriteFile(filepath.Join(root, "other", "zz.pb.go"), []byte(outOfScope), 0o644)
 	for i := range p.Entries {
@@ -224,7 +283,24 @@ func (w *World) place(e *Entry) error {
 		}
 		return os.Symlink(filepath.Join(w.root, "d", "does-not-exist-target"), p)
 	}
-	return os.WriteFile(p, []byte(e.Content()), 0o644)
+	if err := os.WriteFile(p, []byte(e.Content()), 0o644); err != nil {
+		return err
+	}
+	delete(w.perm, e.Name)
+	if w.unpriv {
+		mode := os.FileMode(0o666)
+		switch e.Perm {
+		case "ro":
+			mode = 0o444
+		case "noread":
+			mode = 0
+		}
+		if e.Perm != "" {
+			w.perm[e.Name] = e.Perm
+		}
+		return os.Chmod(p, mode)
+	}
+	return nil
 }
 
 // snapshot of every entry under root (files: bytes; dirs; symlinks: target)
@@ -310,6 +386,10 @@ func (w *World) Step(idx int, ev *Event) *detsim.Violation {
 		w.Faults.Add("event_heal", 1)
 		os.RemoveAll(w.path(ev.Target))
 		os.WriteFile(w.path(ev.Target), []byte(c), 0o644)
+		delete(w.perm, ev.Target)
+		if w.unpriv {
+			os.Chmod(w.path(ev.Target), 0o666)
+		}
 		delete(w.processed, ev.Target)
 		w.Probes.Add("healed_then_processed_candidates", 1)
 		return nil
@@ -322,11 +402,11 @@ func (w *World) Step(idx int, ev *Event) *detsim.Violation {
 	var rr runResult
 	switch ev.Op {
 	case EvRunF:
-		rr = runCLI(w.cli, w.root, "-f", filepath.Join("d", ev.Target))
+		rr = runCLIAs(w.unpriv, w.cli, w.root, "-f", w.arg(ev))
 	case EvRunD:
-		rr = runCLI(w.cli, w.root, "-d", "d")
+		rr = runCLIAs(w.unpriv, w.cli, w.root, "-d", w.arg(ev))
 	case EvRunP:
-		rr = runCLI(w.cli, w.root, "-p", filepath.Join("d", ev.Target))
+		rr = runCLIAs(w.unpriv, w.cli, w.root, "-p", w.arg(ev))
 	}
 	w.Invocations++
 	w.Probes.Add("mode_"+ev.Op, 1)
@@ -396,6 +476,12 @@ func (w *World) Step(idx int, ev *Event) *detsim.Violation {
 				return &detsim.Violation{Class: "faulted-file-changed", Sub: "not-a-go-file", Detail: fmt.Sprintf("%s: %q is not a .go file and was modified", where, n)}
 			}
 			w.Probes.Add("non_go_in_scope", 1)
+		case inD && w.perm[base] != "":
+			// the tool may not write (or not even read) this file: whatever it is, it must stay as it is
+			if a != b {
+				return &detsim.Violation{Class: "faulted-file-changed", Sub: "no-permission", Detail: fmt.Sprintf("%s: %q (%s for the tool's user) was modified", where, n, w.perm[base])}
+			}
+			w.Probes.Add("no_permission_in_scope", 1)
 		case !parses(content):
 			if a != b {
 				return &detsim.Violation{Class: "faulted-file-changed", Sub: "does-not-parse", Detail: fmt.Sprintf("%s: %q does not parse and was modified:\n--- before\n%s\n--- after\n%s", where, n, clip(b[2:]), clip(strings.TrimPrefix(a, "F:")))}
@@ -462,6 +548,8 @@ func sortedKeys(m map[string]bool) []string {
 
 func faultLabel(e *Entry) string {
 	switch {
+	case e.Perm != "":
+		return "perm_" + e.Perm
 	case e.Kind != KGo:
 		return e.Kind
 	case e.Break != "":
